@@ -76,3 +76,54 @@ def _w_nested_root():
     doc = {"x": 2, "a": [{"b": [1, 2]}, {"b": [3]}]}
     # RFC 9535: `$` is the query argument at every depth -> the first element of a (b contains 2 == $.x)
     return jp.findall("$.a[?@.b[?@ == $.x]]", doc) != [{"b": [1, 2]}]
+
+
+# ------------------------------------------------------------------ C05: `test` compares with Python ==
+
+@carveout("test_py_eq_vs_json_eq")
+def _test_eq(ctx):
+    """Inputs on which Python's == and JSON equality disagree (a boolean against an equal number,
+    at any depth).  Implemented as a library-assumption switch: under the carve-out the model of
+    `==` at the comparison is JSON equality."""
+    return z3.BoolVal(False)
+
+
+_test_eq.flag = "py_eq_is_rfc_eq"
+
+
+@witness("patch_test_true_equals_one")
+def _w_test_eq():
+    pm = importlib.import_module("jsonpath.patch")
+    try:
+        pm.apply([{"op": "test", "path": "/a", "value": 1}], {"a": True})
+    except pm.JSONPatchTestFailure:
+        return False
+    return True  # the test passed although true is not 1
+
+
+# ------------------------------------------------------------------ C05: negative array indices in patch targets
+
+def _negative_token(t):
+    return z3.Or(
+        z3.And(Py.is_int(t), Py.i(t) < 0),
+        z3.And(Py.is_str(t), z3.InRe(Py.s(t), z3.Concat(z3.Re("-"), S.NZDIGIT, z3.Star(S.DIGIT)))),
+    )
+
+
+@carveout("patch_negative_index")
+def _neg_index(ctx):
+    """The last token of the operation's path is a negative integer (the pointer extension),
+    which RFC 6902 does not accept as an array index."""
+    toks = [ctx.inputs[k] for k in ("last", "src_last", "dst_last") if k in ctx.inputs]
+    if not toks:
+        return z3.BoolVal(False)
+    return z3.Or(*[_negative_token(t) for t in toks])
+
+
+@witness("patch_remove_negative_index")
+def _w_neg_index():
+    pm = importlib.import_module("jsonpath.patch")
+    try:
+        return pm.apply([{"op": "remove", "path": "/-1"}], [1, 2]) == [1]
+    except pm.JSONPatchError:
+        return False
